@@ -163,6 +163,15 @@ pub fn remaining_bits<R: Read>(r: &mut H263Reader<R>) -> usize {
     .unwrap_or(usize::MAX)
 }
 
+/// Bits not yet consumed, computed WITHOUT touching the reader: bytes still in the growable source plus bytes in the reader's
+/// internal buffer, minus the consumed bits of that buffer (hook `verif_buffer_state`).  Between the calls of a history the reader
+/// must be left exactly as the library left it — draining the source into its buffer (as `remaining_bits` does) would hide
+/// defects of the buffering itself.
+pub fn remaining_bits_quiet(r: &H263Reader<Growable>, src: &Growable) -> usize {
+    let (buffered, consumed) = r.verif_buffer_state();
+    (8 * (src.0.borrow().len() + buffered)).saturating_sub(consumed)
+}
+
 /// `H <opts> <hexPrev|-> <hex>` -> `H <header|none|err:Name> used=<bits>`
 pub fn header(a: &[&str]) -> String {
     let o = opts_of(a[0].parse().expect("opts"));
@@ -284,7 +293,7 @@ pub fn history(a: &[&str], full: bool) -> String {
             out.push("PANIC".into());
             break;
         }
-        let rem = remaining_bits(&mut reader);
+        let rem = remaining_bits_quiet(&reader, &src);
         out.push(format!(
             "{} last={} ref={} rem={}",
             res,
@@ -418,7 +427,7 @@ pub fn schedule(a: &[&str]) -> String {
                         *dead = true;
                         continue;
                     }
-                    let rem = remaining_bits(rd);
+                    let rem = remaining_bits_quiet(rd, src);
                     out.push(format!(
                         "{} last={} ref={} rem={}",
                         res,
